@@ -28,10 +28,15 @@ Bindings == {"redirect", "post", "soap", "artifact"}
 \* typ "SAMLart": the redirect encoder used for an artifact (the third message type http_redirect_message documents)
 Scn == [binding : Bindings, typ : {"SAMLRequest", "SAMLResponse", "SAMLart"}, msg : Strings, relay : Strings \cup {None},
         locq : BOOLEAN, signed : BOOLEAN,
+        \* the destination's own query (when it has one): a name=value pair, additionally a bare parameter ("debug"),
+        \* additionally a parameter with an empty value ("next=") -- all of it belongs to the destination and stays as it is
+        locqKind : {"pair", "bare", "blank"},
         \* the message text starts with an XML declaration: as the tool writes it, or in another legal spelling
         decl : {"none", "tool", "short", "standalone"}]
 WellFormed(s) ==
     /\ (s.signed => s.binding = "redirect")
+    /\ (~s.locq => s.locqKind = "pair")
+    /\ (s.locqKind # "pair" => s.msg = <<>> /\ ~s.signed)
     /\ (s.typ = "SAMLart" => s.binding = "redirect" /\ ~s.signed /\ s.msg = <<>>)
     /\ (s.decl # "none" => s.binding = "soap")                    \* message text starts with an XML declaration line (tool output)
     /\ (s.binding = "soap" => s.relay = None /\ ~s.locq /\ s.typ = "SAMLRequest")
@@ -55,7 +60,10 @@ Artifact == <<"b64:art", "plus", "slash", "eq">>
 Param(name, val) == <<name, "EQ">> \o val
 RECURSIVE JoinAmp(_)
 JoinAmp(ps) == IF ps = <<>> THEN <<>> ELSE IF Len(ps) = 1 THEN ps[1] ELSE ps[1] \o <<"AMP">> \o JoinAmp(Tail(ps))
-Location(s) == IF s.locq THEN <<"loc", "QM", "x", "EQ", "one">> ELSE <<"loc">>
+Location(s) == IF ~s.locq THEN <<"loc">>
+               ELSE CASE s.locqKind = "pair" -> <<"loc", "QM", "x", "EQ", "one">>
+                      [] s.locqKind = "bare" -> <<"loc", "QM", "x", "EQ", "one", "AMP", "debug">>
+                      [] OTHER -> <<"loc", "QM", "next", "EQ", "AMP", "x", "EQ", "one">>
 Glue(s, fixed) == IF s.locq /\ fixed THEN <<"AMP">> ELSE <<"QM">>
 RedirectParams(s) ==
     << Param(s.typ, UrlEsc(IF s.typ = "SAMLart" THEN Artifact ELSE B64(s.msg))) >>
@@ -86,10 +94,14 @@ Unesc(s) == [i \in 1..Len(s) |-> UnescTok(s[i])]
 QueryOf(w) == LET parts == SplitAt(w, "QM", <<>>) IN IF Len(parts) = 2 THEN parts[2] ELSE <<"MALFORMED">>
 ParamsRead(w) == LET ps == SplitAt(QueryOf(w), "AMP", <<>>) IN
                  [i \in 1..Len(ps) |-> LET kv == SplitAt(ps[i], "EQ", <<>>) IN
-                                       IF Len(kv) = 2 /\ Len(kv[1]) = 1 THEN <<kv[1][1], Unesc(kv[2])>> ELSE <<"MALFORMED", ps[i]>>]
+                                       IF Len(kv) = 2 /\ Len(kv[1]) = 1 THEN <<kv[1][1], Unesc(kv[2])>>
+                                       ELSE IF Len(kv) = 1 /\ Len(kv[1]) = 1 THEN <<kv[1][1], <<"BARE">>>>      \* a parameter without "="
+                                       ELSE <<"MALFORMED", ps[i]>>]
 Range(q) == {q[i] : i \in 1..Len(q)}
 Expected(s) ==
     (IF s.locq THEN {<<"x", <<"one">>>>} ELSE {})
+    \cup (IF s.locq /\ s.locqKind = "bare" THEN {<<"debug", <<"BARE">>>>} ELSE {})
+    \cup (IF s.locq /\ s.locqKind = "blank" THEN {<<"next", <<>>>>} ELSE {})
     \cup (IF s.binding = "redirect" /\ s.typ # "SAMLart" THEN {<<s.typ, B64(s.msg)>>} ELSE {<<"SAMLart", Artifact>>})
     \cup (IF s.relay # None /\ s.relay # <<>> THEN {<<"RelayState", s.relay>>} ELSE {})
     \cup (IF s.signed THEN {<<"SigAlg", <<"a">>>>, <<"Signature", <<"b64:sig", "plus", "eq">>>>} ELSE {})
